@@ -6,6 +6,7 @@ import (
 	"fmt"
 	"io"
 	"math/rand/v2"
+	"reflect"
 	"sort"
 	"strings"
 	"sync"
@@ -29,6 +30,40 @@ type structErr struct{ Code int }
 
 func (e structErr) Error() string { return fmt.Sprintf("structErr(%d)", e.Code) }
 
+// sliceErr is an error of an uncomparable type (like the validation
+// error lists of popular libraries): == on two of them panics, errors.Is
+// answers false for them.
+type sliceErr []string
+
+func (e sliceErr) Error() string { return "sliceErr" + fmt.Sprint([]string(e)) }
+
+// holesErr is a caller-owned multi-error with one slot per worker: some
+// slots stay nil, and Unwrap hands out the slice it keeps.
+type holesErr struct{ errs []error }
+
+func (h *holesErr) Error() string   { return fmt.Sprintf("holesErr(%d slots)", len(h.errs)) }
+func (h *holesErr) Unwrap() []error { return h.errs }
+
+type holesSnap struct {
+	h    *holesErr
+	want []error
+}
+
+// sameValue compares two error values without tripping over
+// uncomparable dynamic types.
+func sameValue(a, b error) bool {
+	if a == nil || b == nil {
+		return a == nil && b == nil
+	}
+	if reflect.TypeOf(a) != reflect.TypeOf(b) {
+		return false
+	}
+	if reflect.TypeOf(a).Comparable() {
+		return a == b
+	}
+	return errKey(a) == errKey(b)
+}
+
 type typedErr struct {
 	ID  int
 	Msg string
@@ -51,12 +86,15 @@ type eresult struct {
 	typed  []*typedErr
 	plain  bool // flat consists only of plain leaves (no wrappers), flat order is meaningful
 	desc   string
+	holes  []holesSnap // caller-owned multi-errors in the expression and what they held
 }
 
 func c12Gen(rng *rand.Rand, depth int, ctr *int) *enode {
 	if depth <= 0 || rng.IntN(10) < 3 {
 		*ctr++
-		switch rng.IntN(9) {
+		switch rng.IntN(10) {
+		case 9:
+			return &enode{kind: "leaf-slice", leaf: sliceErr{fmt.Sprintf("slice-%d", *ctr)}}
 		case 0:
 			return &enode{kind: "nil"}
 		case 1, 2:
@@ -73,13 +111,15 @@ func c12Gen(rng *rand.Rand, depth int, ctr *int) *enode {
 			return &enode{kind: "nil"}
 		}
 	}
-	kinds := []string{"join", "join", "join", "wrap", "fmtw", "stdjoin", "panic", "stack", "panic-string", "unwrap"}
+	kinds := []string{"join", "join", "join", "wrap", "fmtw", "stdjoin", "panic", "stack", "panic-string", "unwrap", "holes"}
 	k := kinds[rng.IntN(len(kinds))]
 	n := &enode{kind: k}
 	nk := 1
 	switch k {
 	case "join", "stdjoin", "stack":
 		nk = rng.IntN(5) // 0..4
+	case "holes":
+		nk = 2 + rng.IntN(5)
 	}
 	for i := 0; i < nk; i++ {
 		n.kids = append(n.kids, c12Gen(rng, depth-1, ctr))
@@ -97,6 +137,9 @@ func (n *enode) eval() eresult {
 		return eresult{plain: true, desc: "nil"}
 	case "leaf-const", "leaf-ptr", "leaf-struct", "leaf-sentinel":
 		return eresult{err: n.leaf, flat: []error{n.leaf}, leaves: []error{n.leaf}, plain: true, desc: n.leaf.Error()}
+	case "leaf-slice":
+		// a constituent, but not something errors.Is can be asked about
+		return eresult{err: n.leaf, flat: []error{n.leaf}, plain: true, desc: n.leaf.Error()}
 	case "leaf-typed":
 		return eresult{err: n.leaf, flat: []error{n.leaf}, leaves: []error{n.leaf}, typed: []*typedErr{n.leaf.(*typedErr)}, plain: true, desc: n.leaf.Error()}
 	}
@@ -111,6 +154,7 @@ func (n *enode) eval() eresult {
 		descs = append(descs, r.desc)
 		out.leaves = append(out.leaves, r.leaves...)
 		out.typed = append(out.typed, r.typed...)
+		out.holes = append(out.holes, r.holes...)
 	}
 	concat := func() {
 		for _, r := range kids {
@@ -177,6 +221,16 @@ func (n *enode) eval() eresult {
 		out.err = ers.Join(kerrs...)
 		concat()
 		out.desc = "Join(" + strings.Join(descs, ", ") + ")"
+	case "holes":
+		concat()
+		if len(out.flat) == 0 {
+			out.desc = "nil"
+			return out
+		}
+		h := &holesErr{errs: append([]error(nil), kerrs...)}
+		out.err = h
+		out.holes = append(out.holes, holesSnap{h: h, want: append([]error(nil), kerrs...)})
+		out.desc = "holes[" + strings.Join(descs, ", ") + "]"
 	case "stdjoin":
 		out.err = errors.Join(kerrs...)
 		concat()
@@ -285,7 +339,7 @@ func runC12(r *kit.Run) {
 	if r.Build != "plain" {
 		n /= 20
 	}
-	unrelated := []error{ers.Error("unrelated-sentinel"), errors.New("unrelated-ptr"), structErr{-7}, io.ErrUnexpectedEOF, ers.ErrImmutabilityViolation}
+	unrelated := []error{ers.Error("unrelated-sentinel"), errors.New("unrelated-ptr"), structErr{-7}, io.ErrUnexpectedEOF, ers.ErrImmutabilityViolation, sliceErr{"unrelated"}}
 	for i := int64(0); i < n && !r.Stopped(); i++ {
 		if !r.Mine(i) {
 			continue
@@ -338,7 +392,7 @@ func runC12(r *kit.Run) {
 						cmpPanic = true
 					}
 				}()
-				same = res.err == res.flat[0]
+				same = sameValue(res.err, res.flat[0])
 			}()
 			if !same || cmpPanic {
 				viol("single-not-identity", fmt.Sprintf("aggregation of the single error %v returned %T %v", res.flat[0], res.err, res.err))
@@ -357,7 +411,13 @@ func runC12(r *kit.Run) {
 			continue
 		}
 		for _, u := range unrelated {
-			if errors.Is(res.err, u) {
+			var is bool
+			if p, pv, _ := kit.Guard(func() { is = errors.Is(res.err, u) }); p {
+				viol("is-panics", fmt.Sprintf("errors.Is(result, %T %v) panicked: %v", u, u, pv))
+				bad = true
+				break
+			}
+			if is {
 				viol("is-invented", fmt.Sprintf("errors.Is(result, %v) is true for an error that was never supplied", u))
 				bad = true
 				break
@@ -421,8 +481,33 @@ func runC12(r *kit.Run) {
 				viol("len-mismatch", fmt.Sprintf("Stack.Len()=%d, %d constituents supplied", st.Len(), len(res.flat)))
 				continue
 			}
-		} else if len(uw) == 0 || uw[0] != res.err {
+		} else if _, isHoles := res.err.(*holesErr); isHoles {
+			// a caller-owned multi-error: Unwind lists its constituents
+		} else if len(uw) == 0 || !sameValue(uw[0], res.err) {
 			viol("unwind-single", fmt.Sprintf("Unwind of a single error does not start with it: %v", uw))
+			continue
+		}
+		// caller-owned multi-errors are inspected, never modified: unwinding
+		// one (twice) lists its non-nil slots and leaves it as it was
+		for _, hs := range res.holes {
+			u1 := ers.Unwind(hs.h)
+			u2 := ers.Unwind(hs.h)
+			if len(u1) != len(u2) {
+				viol("unwind-not-repeatable", fmt.Sprintf("two Unwind calls on the same multi-error list %d and %d errors", len(u1), len(u2)))
+				bad = true
+				break
+			}
+			same := len(hs.h.errs) == len(hs.want)
+			for k := 0; same && k < len(hs.want); k++ {
+				same = sameValue(hs.h.errs[k], hs.want[k])
+			}
+			if !same {
+				viol("operand-mutated", fmt.Sprintf("a multi-error passed to the library held %v and now holds %v", keysOfNil(hs.want), keysOfNil(hs.h.errs)))
+				bad = true
+				break
+			}
+		}
+		if bad {
 			continue
 		}
 		if len(res.flat) >= 2 {
@@ -559,6 +644,18 @@ func c12IterPrefix(r *kit.Run, idx int64, rng *rand.Rand) {
 	if iterations.Load() > 10 {
 		r.Distinct(fmt.Sprintf("iterprefix|a=%d|r=%d|p=%d", adders, readers, procs))
 	}
+}
+
+func keysOfNil(errs []error) []string {
+	out := make([]string, len(errs))
+	for i, e := range errs {
+		if e == nil {
+			out[i] = "nil"
+		} else {
+			out[i] = errKey(e)
+		}
+	}
+	return out
 }
 
 func keysOf(errs []error) []string {
